@@ -43,6 +43,12 @@ SRet(e)          == [k |-> "return", e |-> e]
 SDel(ar, e)      == [k |-> "delete", arr |-> ar, e |-> e]
 SBlock(b)        == [k |-> "block", b |-> b]
 
+GetL(lv)         == [k |-> "getline", src |-> "main", name |-> NoE, lv |-> lv]
+GetF(lv, name)   == [k |-> "getline", src |-> "file", name |-> name, lv |-> lv]
+CloseF(name)     == [k |-> "close", name |-> name]
+SNextfile        == [k |-> "nextfile"]
+RangeRule(p1, p2, body) == [pat |-> p1, pat2 |-> p2, body |-> body, nobody |-> FALSE]
+RangeNoBody(p1, p2)     == [pat |-> p1, pat2 |-> p2, body |-> <<>>, nobody |-> TRUE]
 Rule(pat, body)  == [pat |-> pat, body |-> body, nobody |-> FALSE]
 RuleNoBody(pat)  == [pat |-> pat, body |-> <<>>, nobody |-> TRUE]
 Param(nm)        == [n |-> nm, arr |-> FALSE]
